@@ -374,7 +374,8 @@ def normalise_rs(case: Dict[str, Any], res: Dict[str, Any]) -> Tuple[Dict[str, A
             raise HarnessError(f"C14: rust harness rejected op {o}: {r['error']}")
         v = o[0]
         rec: Dict[str, Any] = {"verb": v, "args": list(o[1:]), "fifo": list(r["fifo"]), "isr": int(r["isr"]),
-                               "irq_enabled": bool(r["irq_enabled"]), "ticks": []}
+                               "irq_enabled": bool(r["irq_enabled"]), "latched": bool(r.get("latched", False)),
+                               "ticks": []}
         ret = r.get("ret") or {}
         after = rec["fifo"]
         if v == "scan" or (v == "ttick" and ret.get("mti")):
@@ -551,12 +552,15 @@ def shrink(ctx: Ctx, v: Violation) -> Violation:
                 return w
         return None
 
+    import time
+
+    t_end = time.time() + 10.0  # wall clock only bounds the effort; the result is any witness of the same class
     budget = 1500
     chunk = max(1, len(best.case["ops"]) // 2)
-    while chunk >= 1 and budget > 0:
+    while chunk >= 1 and budget > 0 and time.time() < t_end:
         i = 0
         changed = False
-        while i < len(best.case["ops"]) and budget > 0:
+        while i < len(best.case["ops"]) and budget > 0 and time.time() < t_end:
             ops = best.case["ops"]
             trial = ops[:i] + ops[i + chunk:]
             budget -= 1
